@@ -168,6 +168,7 @@ ARGS = [('i', Integer), ('u', Unicode), ('d', Date), ('t', DateTime), ('b', Byte
         ('c', Inner), ('n', Decimal), ('f', Double), ('o', Boolean), ('r', Duration), ('z', Uuid)]
 VALID = {'i': 5, 'u': 'x', 'd': '2020-02-29', 't': '2020-02-29T10:00:00', 'b': 'YWJj', 'a': [1, 2], 'c': {'x': 1, 's': 'y'},
          'n': '1.5', 'f': 1.5, 'o': True, 'r': 'PT1S', 'z': '12345678-1234-5678-1234-567812345678'}
+VALID_MSGPACK = dict(VALID, b=b'abc')          # MessagePack carries binary data as bin, not as base64 text
 KINDS = [None, True, 7, 2.5, 'text', '', [], [1, 'x'], {}, {'k': 1}, [[1]], 10 ** 30]
 
 
@@ -235,7 +236,7 @@ def _mk_kinds(family, validator):
         pos = c.choose([a for a, _ in ARGS] + ['__top__', '__args__'], 'position')
         kind = c.choose(list(range(len(KINDS))), 'value_kind')
         v = KINDS[kind]
-        args = dict(VALID)
+        args = dict(VALID_MSGPACK if family == 'msgpack' else VALID)
         if pos == '__top__':
             doc = v
         elif pos == '__args__':
@@ -348,7 +349,7 @@ def _mk_trunc(family):
             data, ctype = yaml.safe_dump({'m': VALID}).encode(), 'text/yaml'
         else:
             import msgpack
-            data, ctype = msgpack.packb({b'm': {k.encode(): v for k, v in VALID.items()}}), 'application/x-msgpack'
+            data, ctype = msgpack.packb({b'm': {k.encode(): v for k, v in VALID_MSGPACK.items()}}), 'application/x-msgpack'
         block = c.choose(list(range(8)), 'prefix_block')
         n = len(data)
         bad = []
@@ -384,7 +385,7 @@ def _mk_bytes(family):
     def ob(c):
         import msgpack, yaml
         valid = {'json': json.dumps({'m': VALID}).encode(), 'yaml': yaml.safe_dump({'m': VALID}).encode(),
-                 'msgpack': msgpack.packb({b'm': {k.encode(): v for k, v in VALID.items()}}),
+                 'msgpack': msgpack.packb({b'm': {k.encode(): v for k, v in VALID_MSGPACK.items()}}),
                  'xml': ('<tns:m xmlns:tns="%s">%s</tns:m>' % (TNS, XML_ARGS)).encode(),
                  'soap11': soap_env(SOAP11_NS, '<tns:m>%s</tns:m>' % XML_ARGS),
                  'soap12': soap_env(SOAP12_NS, '<tns:m>%s</tns:m>' % XML_ARGS),
